@@ -419,7 +419,13 @@ fn conflict_family() -> Vec<Case> {
 /// database names an administrator may pick: created, selected, written, snapshotted (and the snapshot executed)
 fn db_name_family() -> Vec<Case> {
     let long = "n".repeat(300);
-    let names: Vec<&str> = vec!["plain", "app.keys", "x-nun.data", "my.db", "a/b", "no-such-dir/x", "../escaped", "a|b", "a b", "é✓", "$x", "-", ".", "..", &long, "keys-nun", "oplog-nun.op"];
+    // (names measured in characters and in bytes: 150 two-byte and 100 three-byte characters are 300 bytes, more than a
+    // file name holds; 120 two-byte characters are 240 bytes: with the suffixes of the database's files still too long)
+    let long2 = "é".repeat(150);
+    let long3 = "✓".repeat(100);
+    let long4 = "é".repeat(120);
+    let ok199 = "m".repeat(199);
+    let names: Vec<&str> = vec![&long2, &long3, &long4, &ok199, "plain", "app.keys", "x-nun.data", "my.db", "a/b", "no-such-dir/x", "../escaped", "a|b", "a b", "é✓", "$x", "-", ".", "..", &long, "keys-nun", "oplog-nun.op"];
     let mut out = vec![];
     for n in names {
         for reclaim in ["false", "true"] {
